@@ -459,6 +459,26 @@ def healing_script(rng, name, nports=2, pt=60, chaos=100, drop=50, asym=None):
     return Script(name, ops, {"suite": "node", "noshrink": True})
 
 
+def half_open_script(rng, name, pts=(60, 900)):
+    """the handshake ends half-open: ping and pong arrive, the final message and everything else node 1 sends is lost until node 2 has given the attempt up.
+    Node 1 holds a session node 2 does not have.  Node 2 advertises a much longer peer timeout than node 1's own: node 1 expires the silent peer after ITS OWN
+    timeout, dials again, and within its peer timeout + retry horizon of reliable delivery both are connected and exchange payload."""
+    ops = ["nkeys 2 %s" % rng.bytes(6).hex(), node_line(1, pt=pts[0], ka="-", key=0, trust=(0, 1)), node_line(2, pt=pts[1], ka="-", key=1, trust=(0, 1))]
+    ops += ["npeer 1 p2", "ndeliver 0", "ndeliver 0", "ndropfrom 1 2"]
+    t = 0
+    for _ in range(135):
+        t += 1
+        ops += ["ntime %d" % t, "nhk 1", "ndropfrom 1 2", "nhk 2"] + ["ndeliver 0", "ndropfrom 1 2"] * 3
+    for _ in range(pts[0] + 120 + 30):
+        t += 1
+        ops += second([1, 2], t)
+    for a, b in ((1, 2), (2, 1)):
+        ops.append("nframe %d %s" % (a, hx(ipv4_packet(ip4(a), ip4(b), b"healed"))))
+        ops.append("ndeliver 0")
+    ops.append("nexpect mesh 1 2")
+    return Script(name, ops, {"suite": "node", "noshrink": True})
+
+
 def restart_script(rng, name, who_dials):
     """a node is restarted on the same address while its peer still holds the old session; the new handshake must replace it on both sides"""
     ops = mesh(rng, 2, pt=60)
